@@ -8,6 +8,7 @@ import JrpcVerif.Driver.TextFamily
 import JrpcVerif.Driver.RegistryFamily
 import JrpcVerif.Driver.ParamsFamily
 import JrpcVerif.Driver.BuildFamily
+import JrpcVerif.Driver.ServerFamily
 import JrpcVerif.Driver.HostFilterFamily
 import JrpcVerif.Driver.ClientFamily
 import JrpcVerif.Driver.ConnFamily
@@ -16,6 +17,7 @@ open Jrpc Jrpc.Driver
 
 structure St where
   dummy : Nat := 0
+  server : ServerSt := {}
   reg : RegistrySt := {}
   -- one field per stateful family, e.g.  reg : RegistrySt := {}
   conn : ConnSt := {}
@@ -32,6 +34,9 @@ def step (st : St) (line : String) : St × String :=
   | none =>
   match buildVerb ws with
   | some out => (st, out)
+  | none =>
+  match serverVerb st.server ws with
+  | some (s', out) => ({ st with server := s' }, out)
   | none =>
   match hostFilterVerb ws with
   | some out => (st, out)
